@@ -1,9 +1,10 @@
 (* C20 - optim_flat: stopping rule, restored optimum, history shape, fresh mini-batches. *)
-From Coq Require Import List ZArith QArith Bool Arith.
+From Coq Require Import List ZArith QArith Bool Arith Permutation.
+From Coq Require String.
 Import ListNotations.
 Close Scope Q_scope.
 Open Scope nat_scope.
-From LV Require Import Goose.Stopper Goose.StopperProofs.
+From LV Require Import Goose.Stopper Goose.StopperProofs Goose.StopperPos Goose.StopperPosProofs.
 
 Theorem C20_stop_rule : forall s i h,
   (1 <= patience s)%nat -> (patience s <= length h)%nat -> (i < length h)%nat ->
@@ -66,3 +67,73 @@ Print Assumptions C20_batches_fresh.
 Theorem C20_stale_key_refuted : forall k j, batch_key Stale k j = batch_key Stale k 0.
 Proof. exact stale_key_refuted. Qed.
 Print Assumptions C20_stale_key_refuted.
+
+(* the returned position, parameter NAME by name: for every list of distinct names, in any order, the value
+   returned under a name is the value recorded under that name at iteration_best (restore_best_position) or at
+   the last iteration, no other name is returned, and the saved position history has, under each name, the
+   recorded values up to the last iteration followed by NaN (or nothing when pruned).  j and b are the ones of
+   C20_optim_flat_spec (same equation). *)
+Theorem C20_position_restored : forall s hv restore save prune params loss rec,
+  (1 <= patience s)%nat -> (patience s <= max_iter s)%nat ->
+  NoDup params -> (restore = true -> save = true) ->
+  exists (j b : nat) (o : full_out),
+    optim_flat_model s hv restore loss
+      = Some (mkOut j (Z.of_nat b) (if restore then Z.of_nat b else Z.of_nat j) (hist_at s loss j))
+    /\ optim_flat_full s hv restore save prune params loss rec = Ok o
+    /\ f_iter o = j /\ f_best o = Z.of_nat b
+    /\ (j < max_iter s)%nat /\ (j + 1 - patience s <= b <= j)%nat
+    /\ (forall n, In n params ->
+          lookup n (f_position o) = Some (rec (if restore then b else j) n))
+    /\ (forall n, ~ In n params -> lookup n (f_position o) = None)
+    /\ (save = false -> f_poshist o = None)
+    /\ (save = true -> exists ph, f_poshist o = Some ph
+          /\ (forall n, ~ In n params -> lookup n ph = None)
+          /\ forall n, In n params -> exists col, lookup n ph = Some col
+               /\ length col = (if prune then S j else max_iter s)
+               /\ (forall k, (k <= j)%nat -> nth k col None = Some (rec k n))
+               /\ (forall k, (j < k < length col)%nat -> nth k col None = None))
+    /\ f_losshist o = post_history prune (hist_at s loss j) j.
+Proof. exact position_by_name. Qed.
+Print Assumptions C20_position_restored.
+
+Example C20_position_restored_example :
+  exists o, optim_flat_full (mkStopper 8 2 0 0) true true true true ex3_params ex3_loss ex3_rec = Ok o
+    /\ f_iter o = 3 /\ f_best o = 2%Z
+    /\ lookup "w"%string (f_position o) = Some [2; 7]%Q
+    /\ lookup "b"%string (f_position o) = Some [2 + 100]%Q
+    /\ map fst (f_position o) = ["b"; "m"; "w"]%string.
+Proof. exact position_by_name_example. Qed.
+
+Theorem C20_restore_needs_history : forall s hv prune params loss rec,
+  optim_flat_full s hv true false prune params loss rec = Err AssertRestoreNeedsHistory.
+Proof. exact restore_needs_history. Qed.
+Print Assumptions C20_restore_needs_history.
+
+(* pairing the caller's order of names with the (sorted) columns of the history is refuted *)
+Theorem C20_restore_by_zip_refuted :
+  NoDup ex_params
+  /\ map fst ex_hist = ["intercept"; "slope"]%string
+  /\ lookup "slope"%string (restore_by_zip ex_params ex_hist 2) = Some (ex_rec 2 "intercept"%string)
+  /\ lookup "slope"%string (restore_by_items ex_hist 2) = Some (ex_rec 2 "slope"%string)
+  /\ ex_rec 2 "intercept"%string <> ex_rec 2 "slope"%string.
+Proof. exact restore_by_zip_refuted. Qed.
+Print Assumptions C20_restore_by_zip_refuted.
+
+(* the batches of one iteration: n / bs disjoint rows of bs indices each, together a duplicate-free prefix of the
+   permutation, so exactly n mod bs observations are left out *)
+Theorem C20_batches_partition : forall perm bs n,
+  Permutation perm (seq 0 n) -> (1 <= bs <= n)%nat ->
+  exists bt, batch_indices perm bs = Some bt
+    /\ length bt = (n / bs)%nat
+    /\ Forall (fun r => length r = bs) bt
+    /\ concat bt = firstn ((n / bs) * bs) perm
+    /\ NoDup (concat bt)
+    /\ (forall i, In i (concat bt) -> (i < n)%nat)
+    /\ length (concat bt) = (n - n mod bs)%nat.
+Proof. exact batches_partition. Qed.
+Print Assumptions C20_batches_partition.
+
+Example C20_batches_partition_example :
+  batch_indices [1; 4; 3; 0; 2; 6; 5] 3 = Some [[1; 4; 3]; [0; 2; 6]]
+  /\ Permutation [1; 4; 3; 0; 2; 6; 5] (seq 0 7).
+Proof. exact batches_partition_example. Qed.
